@@ -72,9 +72,20 @@ impl DataBlockParsable for EntryStore {
         let entry_reader = if layout.is_entry_checked {
             let data_size =
                 layout.entry_count * (layout.entry_size + BlockCheck::Crc32.size()).into();
+            // The entries are stored right before the tail of the store.
+            if data_size.into_u64() > header_offset.into_u64() {
+                return Err(format_error!(
+                    "Entries are larger than what is stored before the entry store tail"
+                ));
+            }
             reader.cut(header_offset - data_size, data_size, false)?
         } else {
             let data_size = layout.entry_count * layout.entry_size.into();
+            if data_size.into_u64() + BlockCheck::Crc32.size() as u64 > header_offset.into_u64() {
+                return Err(format_error!(
+                    "Entries are larger than what is stored before the entry store tail"
+                ));
+            }
             reader
                 .cut_check(
                     header_offset - data_size - ASize::from(BlockCheck::Crc32.size()),
